@@ -73,7 +73,11 @@ def main():
                  note='Karney 2011 eqs 25-27 with the derivative series, rectifying radius, eccentricity and central scale of ITS OWN ellipsoid/projection arguments')
         # magnitude and sign rule (grid bearing = azimuth + convergence: negative east of the central meridian in the north
         # and west of it in the south, positive in the other two quadrants)
-        neg = z3.Or(z3.And(lon.t > cm.t, lat.t > 0), z3.And(lon.t < cm.t, lat.t < 0))
+        # "east of the central meridian" is a statement about meridians, not numbers: the difference is reduced to [-180, 180)
+        # (zone 60 holds longitudes written as -180..-177+; zone 1 those written as 177..180)
+        w_ = lon.t - cm.t + 180
+        dred = w_ - 360 * z3.ToReal(z3.ToInt(w_ / 360)) - 180
+        neg = z3.Or(z3.And(dred > 0, lat.t > 0), z3.And(dred < 0, lat.t < 0))
         A_ = E.Abstractor()
         H = A_.assume(hy)
         ga, gm = A_.ab(g), A_.ab(gmag)
